@@ -153,6 +153,9 @@ def gen_ckpt_program(rng):
                 ops.append(["distinct"])
             if rng.chance(1, 6):
                 ops.append(["limit", rng.range(2, 4)])
+            if rng.chance(1, 8):
+                # a second operator of a kind the stream already has (own checkpoint slot each)
+                ops.insert(0, rng.choice([["limit", rng.range(1, 2)], ["distinct"], ["window", 2]]))
             if rng.chance(5, 6):
                 ops.append(["emit"])
             p.append({"name": names[i], "kind": "pipe", "src": src, "ops": ops})
@@ -262,6 +265,11 @@ def shrink_engine(binpath, p, evs, classes):
 
 
 ENGINE_CORPUS = [
+    # two operators of one kind in a stream shared one checkpoint slot; restore overwrote both limits' maxima (fixed 796b38d)
+    ([{"name": "S1", "kind": "pipe", "src": "B", "ops": [["limit", 1], ["limit", 4], ["emit"]]}],
+     [("B", i + 1, 0) for i in range(5)]),
+    ([{"name": "S1", "kind": "pipe", "src": "A", "ops": [["window", 2], ["distinct"], ["window", 2], ["distinct"], ["agg"], ["emit"]]}],
+     [("A", [1, 2, 1, 3, 4, 5, 2, 6][i], 0) for i in range(8)]),
     # partitioned sliding count windows were not checkpointed at all (fixed)
     ([{"name": "S1", "kind": "pipe", "src": "A", "ops": [["partition"], ["swindow", 2, 1], ["agg"], ["emit"]]}],
      [("A", i + 1, i % 2) for i in range(6)]),
